@@ -502,6 +502,33 @@ func parkedCases() []scase {
 		add("bidi", "G", f, "y,r")
 		add("unary", "R,Ha=1,G", f, "s1,c,x,r,h")
 	}
+	// a unary call (Invoke) whose handler is busy with work of its own: on the bare connection and through every
+	// sampled generated wrapper (each unary method, typed client and UnwrapService client) — whatever sits between the
+	// typed client and the handler must release the caller the moment its context ends
+	for _, f := range []string{"OK", "E9:e0"} {
+		add("unary", "R,G", f, "s1,c,x,r,h")
+		for _, v := range viaNames {
+			if !viaOK(v, "unary", "s1,c,x,r,h") {
+				continue
+			}
+			for _, srv := range []string{"R,G", "R,Ha=1,Tb=2,G", "R,G,M3"} {
+				if f != "OK" && srv != "R,G" {
+					continue
+				}
+				out = append(out, scase{Shape: "unary", Out: "-", Srv: srv, Fin: f, Cli: "s1,c,x,r,h", Via: v})
+			}
+		}
+	}
+	for _, v := range viaNames {
+		if viaOK(v, "sstream", "s1,c,y,r") {
+			out = append(out, scase{Shape: "sstream", Out: "-", Srv: "R,G", Fin: "OK", Cli: "s1,c,y,r", Via: v})
+			out = append(out, scase{Shape: "sstream", Out: "-", Srv: "R,M1,G", Fin: "E9:e0", Cli: "s1,c,r,y,r", Via: v})
+		}
+	}
+	// ... ended by the caller's deadline instead of a cancel
+	add("unary", "R,G", "OK", "s1,c,d,r,h")
+	out = append(out, scase{Shape: "unary", Out: "-", Srv: "R,G", Fin: "OK", Cli: "s1,c,d,r,h", Via: "update"})
+	out = append(out, scase{Shape: "unary", Out: "-", Srv: "R,Ha=1,G", Fin: "E9:e0", Cli: "s1,c,d,r,h", Via: "metadata+us"})
 	add("cstream", "R,R,M7,G", "OK", "s1,c,z,r") // the same window, ended by the deadline
 	add("cstream", "R,R,M7,G", "E9:e0", "s1,c,z,r")
 	add("bidi", "R,M1,G", "OK", "s1,r,z,r")
@@ -516,8 +543,14 @@ func parkedVariants(r *rand.Rand, n int) []scase {
 	var out []scase
 	for i := 0; i < n; i++ {
 		c := base[r.Intn(len(base))]
-		if strings.Contains(c.Cli, "z") {
+		if strings.ContainsAny(c.Cli, "zd") {
 			continue
+		}
+		if c.Via == "" && r.Intn(2) == 0 {
+			// the same script through a generated wrapper where it can be driven through one
+			if v := viaNames[r.Intn(len(viaNames))]; viaOK(v, c.Shape, c.Cli) {
+				c.Via = v
+			}
 		}
 		c.Fin = genFin(r)
 		c.Ctx = genCtx(r)
